@@ -25,7 +25,8 @@ class ScriptSock:
         self.eof_calls = 0
         self.rst = rst_at_end
 
-    def recv(self, n):
+    def recv(self, n, flags=0):
+        # (flags such as MSG_WAITALL do not forbid a short read: a signal handled by the receiving thread cuts it short)
         self.calls += 1
         if not self.data:
             self.eof_calls += 1
